@@ -121,7 +121,7 @@ PROPS['C11'] = edit_prop('Converting a local function to an import redirects all
     'Lean 4 proof + differential correspondence check')
 PROPS['C05'] = edit_prop('Encoding again without edits gives the same bytes', ['Orca/Props/C05.lean'], None,
     'PARTIAL. Lean 4 theorem: when no re-indexing is pending the first encode returns the state unchanged, hence the second encode is identical (all injection / initialiser / export / data histories); '
-    'the full statement is false of the code (known finding F4, counterexample decided in Lean and replayed on the crate); the oracle compares the bytes of two encodes on every fifth case.',
+    'the full statement is false of the code (known finding F4, counterexample decided in Lean and replayed on the crate); the oracle compares the bytes of two encodes on every fifth case. The lowering half - special instrumentation resolved in place - is proved without restriction: after resolve_special_instrumentation no special list is left (every body, every plan) and a second resolution changes nothing (Lemmas/LowerIdem.lean).',
     'Lean 4 proof (fixpoint of encode under NoReindexPending) + decided counterexample + differential check of two encodes')
 PROPS['C05']['families'].append({'name': 'lower', 'quick_n': 1500, 'thorough_n': 100000})
 
@@ -337,7 +337,7 @@ SEM_RULE = ("generated terminating programs of the core fragment (0-2 i32 params
 SEM_TRUST = COMMON_TRUST + [
     'the structured semantics Orca.Sem (run / runOne: i32 fragment, big-step with fuel) as a reading of the WebAssembly specification, and its monitor switch as the reading of C16-C20 (the monitor rules are restated as theorems c1x_monitor_* in each property file so that they can be audited against the property text)',
     'execution is by the compiled Lean interpreter (no wasm engine exists in the sandbox); validity of instrumented modules is wasmparser\'s verdict per generated case, not a theorem',
-    'modelled, not verified: the token <-> instruction parser of the driver (parseOp / kindOfTok), the placement equivalence tree-model = code outside the tree scope (before-code on instruction 0 together with function-level probes; >= 3 flagged bodies at one end; branches to the function label or to loops) where the flat model M3 (tied to the code by the lower family) is printed instead',
+    'modelled, not verified: the token <-> instruction parser of the driver (parseOp / kindOfTok). Inside the tree scope the placement equivalence tree model = code model is a theorem (Lemmas/Bridge.lean, cNN_code_lowering_is_tree_lowering: M3 applied to the flattened annotated function gives the tokens of lowerF); outside it (before-code on instruction 0 together with function-level probes; >= 3 flagged bodies at one end; flagged branches to loops) the flat model M3 (tied to the code by the lower family) is printed instead',
 ]
 def sem_prop(title, files, level_text, technique, with_lower=False):
     return {
